@@ -63,7 +63,7 @@ class QueryPlugin(Plugin):
         acc["records_hist"][k] = acc["records_hist"].get(k, 0) + 1
         acc["strings"] = acc.get("strings", 0) + len(strs)
         acc["calls"] = acc.get("calls", 0) + (len(obs[1]) if len(obs) > 1 else 0)
-        bm = acc.setdefault("build_mode_hist (0 constructor, 1 add_record, 2 add_prefix + merge, 3 two merges, 4 two merges with queries after every step)", {})
+        bm = acc.setdefault("build_mode_hist (0 constructor, 1 add_record, 2 add_prefix + merge, 3 two merges, 4 two merges with queries after every step, 5 constructor fed with a one-shot iterable, 6 constructor, then used as input of chain / get_subconverter / remap_* / rewire)", {})
         mk = str(case[4]) if len(case) > 4 else "0"
         bm[mk] = bm.get(mk, 0) + 1
         dl = acc.setdefault("delimiters", {})
